@@ -36,9 +36,20 @@ pub trait Runtime {
 
     /// Unnamed state for plugins during rendering
     fn registers(&self) -> &Registers;
+
+    /// Identity of this frame in verification traces (0 = not a traced frame).
+    #[cfg(liquid_verif)]
+    fn verif_id(&self) -> u64 {
+        0
+    }
 }
 
 impl<R: Runtime + ?Sized> Runtime for &R {
+    #[cfg(liquid_verif)]
+    fn verif_id(&self) -> u64 {
+        <R as Runtime>::verif_id(self)
+    }
+
     fn partials(&self) -> &dyn super::PartialStore {
         <R as Runtime>::partials(self)
     }
@@ -118,6 +129,8 @@ impl<'c, 'g: 'c, 'p: 'c> RuntimeBuilder<'g, 'p> {
             partials,
             ..Default::default()
         };
+        #[cfg(liquid_verif)]
+        super::verif_trace::emit_new("core", runtime.vid, 0);
         let runtime = super::IndexFrame::new(runtime);
         let runtime = super::StackFrame::new(runtime, self.globals.unwrap_or(&NullObject));
         super::GlobalFrame::new(runtime)
@@ -205,6 +218,8 @@ impl Default for RuntimeBuilder<'static, 'static> {
 
 /// Processing runtime for a template.
 pub struct RuntimeCore<'g> {
+    #[cfg(liquid_verif)]
+    vid: u64,
     partials: &'g dyn PartialStore,
 
     registers: Registers,
@@ -225,6 +240,11 @@ impl RuntimeCore<'_> {
 }
 
 impl Runtime for RuntimeCore<'_> {
+    #[cfg(liquid_verif)]
+    fn verif_id(&self) -> u64 {
+        self.vid
+    }
+
     fn partials(&self) -> &dyn PartialStore {
         self.partials
     }
@@ -239,10 +259,18 @@ impl Runtime for RuntimeCore<'_> {
     }
 
     fn try_get(&self, _path: &[ScalarCow<'_>]) -> Option<ValueCow<'_>> {
+        #[cfg(liquid_verif)]
+        if let Some(key) = _path.first() {
+            super::verif_trace::emit("Ask", self.vid, &[("key", key.to_kstr().as_str())], &[("has", false)]);
+        }
         None
     }
 
     fn get(&self, path: &[ScalarCow<'_>]) -> Result<ValueCow<'_>> {
+        #[cfg(liquid_verif)]
+        if let Some(key) = path.first() {
+            super::verif_trace::emit("Ask", self.vid, &[("key", key.to_kstr().as_str())], &[("has", false)]);
+        }
         let key = path.first().cloned().unwrap_or_else(|| Scalar::new("nil"));
         Error::with_msg("Unknown variable")
             .context("requested variable", key.to_kstr())
@@ -273,6 +301,8 @@ impl Runtime for RuntimeCore<'_> {
 impl Default for RuntimeCore<'_> {
     fn default() -> Self {
         Self {
+            #[cfg(liquid_verif)]
+            vid: super::verif_trace::next_id(),
             partials: &NullPartials,
             registers: Default::default(),
         }
